@@ -208,7 +208,10 @@ func (w *vWorld) all() []*vCert {
 
 // vNewWorld builds 1–3 roots, optional cross-signs, 2–6 intermediates in a tree of depth ≤ 3,
 // pre-issuers, and same-subject twins, with mixed RSA / ECDSA keys.
-func vNewWorld(r *verifkit.Rand, tag string) *vWorld {
+func vNewWorld(r *verifkit.Rand, tag string) *vWorld { return vNewWorldOpt(r, tag, false) }
+
+// vNewWorldOpt with clean=true leaves out the intermediates that are not allowed to sign.
+func vNewWorldOpt(r *verifkit.Rand, tag string, clean bool) *vWorld {
 	keys := vKeys()
 	pick := func() *vKey { return keys[r.Intn(len(keys))] }
 	w := &vWorld{crossOf: map[*vCert]*vCert{}}
@@ -259,6 +262,16 @@ func vNewWorld(r *verifkit.Rand, tag string) *vWorld {
 			sp.notBefore = time.Date(2039, 1, 1, 0, 0, 0, 0, time.UTC) // not yet valid
 		case 4:
 			sp.ekus = []stdx509.ExtKeyUsage{stdx509.ExtKeyUsageClientAuth} // EKU checks are disabled
+		}
+		if !clean {
+			switch r.Intn(9) {
+			case 0:
+				sp.keyUsage = stdx509.KeyUsageDigitalSignature // key usage present without certSign: may not sign
+			case 1:
+				sp.noBC = true // version 3 without basic constraints: may not sign
+			case 2:
+				sp.isCA = false // basic constraints say "not a CA"
+			}
 		}
 		w.inters = append(w.inters, vIssue(sp))
 	}
